@@ -1,4 +1,5 @@
 import CoreBGP.Model.Writer
+import CoreBGP.Lemmas.Writer
 /-!
 # C04 (goroutine half) — `WriteUpdate` never deadlocks, from any goroutine, including from inside
 `OnEstablished` and the update handler; and the session's teardown is never blocked by writers
@@ -6,44 +7,69 @@ import CoreBGP.Model.Writer
 Over all reachable states of the E / K / W₁…Wₙ protocol, for every number of writer goroutines.
 -/
 namespace CoreBGP.Props.C04L2
-open CoreBGP CoreBGP.Model
+open CoreBGP CoreBGP.Model CoreBGP.Lemmas.Writer
 
 /-- the keepalive manager is alive exactly as long as the close channels are open — so whoever sends
 on `resetKATimerCh` while they are open finds a receiver -/
 theorem manager_alive (n : Nat) (s : WState) (h : WReach n s) :
     (s.k = .done → s.closed = true) ∧
     (s.closed = true ↔ (s.e = .exited ∨ s.e = .done)) ∧ s.ws.length = n := by
-  sorry
+  obtain ⟨h1, h2, h3, _⟩ := inv_reach h
+  exact ⟨h2, h3, h1⟩
 
 /-- E is never stuck at its own sends: at the keepalive reset and inside a callback's `WriteUpdate`
 the rendezvous with K is enabled -/
 theorem fsm_send_enabled (n : Nat) (s : WState) (h : WReach n s)
     (he : s.e = .sendReset ∨ s.e = .inCallback .written) : s.k = .select_ := by
-  sorry
+  obtain ⟨_, h2, h3, _⟩ := inv_reach h
+  rcases k_cases s.k with hk | hk
+  · exact hk
+  · have hc := h3.mp (h2 hk)
+    rcases he with he | he <;> rw [he] at hc <;> simp at hc
 
 /-- an external writer that has written is never stuck: either K is receiving or the writer's close
 channel is closed — its `select` has an enabled case in every reachable state -/
 theorem writer_never_stuck (n : Nat) (s : WState) (h : WReach n s) (j : Nat) (hj : j < s.ws.length)
     (hw : s.ws.getD j .idle = .written) : s.k = .select_ ∨ s.closed = true := by
-  sorry
+  obtain ⟨_, h2, _, _⟩ := inv_reach h
+  rcases k_cases s.k with hk | hk
+  · exact Or.inl hk
+  · exact Or.inr (h2 hk)
 
 /-- the join is never blocked: once E has left its loop K can always finish, whatever the writers do -/
 theorem join_enabled (n : Nat) (s : WState) (h : WReach n s) (he : s.e = .exited) :
     s.k = .done ∨ ({ s with k := .done } ∈ wnext s) := by
-  sorry
+  obtain ⟨_, _, h3, _⟩ := inv_reach h
+  have hc : s.closed = true := h3.mpr (Or.inl he)
+  rcases k_cases s.k with hk | hk
+  · refine Or.inr (mem_wnext.mpr (Or.inr (Or.inl ?_)))
+    simp [kSteps, hk, hc]
+  · exact Or.inl hk
 
 /-- no deadlock: in every reachable state in which something is still to be done (E not done, or a
 writer inside a call) some step is enabled -/
 theorem no_deadlock (n : Nat) (s : WState) (h : WReach n s)
     (hbusy : s.e ≠ .done ∨ ∃ j, j < s.ws.length ∧ s.ws.getD j .idle ≠ .idle) : wnext s ≠ [] := by
-  sorry
+  have hi := inv_reach h
+  by_cases he : s.e = .done
+  · rcases hbusy with hb | ⟨j, hj, hw⟩
+    · exact absurd he hb
+    · have hc : s.closed = true := hi.2.2.1.mpr (Or.inr he)
+      exact wnext_ne_nil_of_w hj (w_enabled hc hw)
+  · rcases e_or_k_enabled hi he with h' | h'
+    · exact wnext_ne_nil_of_e h'
+    · exact wnext_ne_nil_of_k h'
 
 /-- after the session has ended a new `WriteUpdate` call does not start (it returns the error at the
 non-blocking check) and nothing more reaches the wire from calls that start afterwards: `wrote` only
 grows through calls that passed the check before the close -/
 theorem no_write_starts_after_close (n : Nat) (s s' : WState) (h : WReach n s) (hc : s.closed = true)
     (hs : s' ∈ wnext s) : ∀ j, s.ws.getD j .idle = .idle → s'.ws.getD j .idle = .idle := by
-  sorry
+  intro j hj
+  rcases mem_wnext.mp hs with h' | h' | ⟨j', _, h'⟩
+  · rw [eSteps_ws h']; exact hj
+  · rw [kSteps_ws h']; exact hj
+  · exact wStep_keeps_idle hc h' j hj
 
 example : (wnext (wInit 2)).length = 5 := by decide
 
